@@ -59,7 +59,7 @@ def source_files():
 def tree_hash(extra=()):
     h = hashlib.sha256()
     cfg = os.path.join(config_dir(), 'soplex', 'config.h')
-    for p in source_files() + [cfg, TOOL, os.path.join(VERIF, 'units', 'inst_real.cpp')] + list(extra):
+    for p in source_files() + [cfg, TOOL, os.path.join(VERIF, 'units', 'inst_real.cpp'), os.path.join(VERIF, 'units', 'controls.cpp')] + list(extra):
         h.update(p.encode())
         try:
             with open(p, 'rb') as fh:
@@ -71,7 +71,8 @@ def tree_hash(extra=()):
 
 def units():
     """(tag, file, main_only) for every analysis unit: U-inst + every library .cpp"""
-    us = [('inst', os.path.join(VERIF, 'units', 'inst_real.cpp'), False)]
+    us = [('inst', os.path.join(VERIF, 'units', 'inst_real.cpp'), False),
+          ('ctl', os.path.join(VERIF, 'units', 'controls.cpp'), True)]
     for p in sorted(glob.glob(os.path.join(SRC, 'soplex', '*.cpp'))) + [os.path.join(SRC, 'soplex_interface.cpp')]:
         us.append((os.path.basename(p).replace('.', '_'), p, True))
     return us
@@ -84,7 +85,8 @@ def flags():
 
 def _run_unit(args):
     tag, path, main_only, out = args
-    cmd = [TOOL, '--out', out, '--tag', tag, '--root', SRC, '--exclude', os.path.join(SRC, 'soplex', 'external')]
+    root = os.path.join(VERIF, 'units') if tag == 'ctl' else SRC
+    cmd = [TOOL, '--out', out, '--tag', tag, '--root', root, '--exclude', os.path.join(SRC, 'soplex', 'external')]
     if main_only:
         cmd.append('--main-only')
     cmd += [path, '--'] + flags()
